@@ -109,7 +109,9 @@ def main():
             new_fail = [f for f in failed(ot) if f not in base]
             if new_fail:
                 # sleep-based tests flake under load: re-run the new failures once, alone
-                rcr, orr = sh("timeout 1800 " + tcmd.split(" pynetdicom/")[0] + " " + " ".join(new_fail) + " -rfE", cwd=wt, timeout=1900)
+                prefix = ("isopytest -q --timeout=900" if tcmd.startswith("isopytest")
+                          else "/venv/bin/python -m pytest -p no:cacheprovider -q --timeout=900")
+                rcr, orr = sh("timeout 1800 " + prefix + " " + " ".join(new_fail) + " -rfE", cwd=wt, timeout=1900)
                 new_fail = [f for f in failed(orr)]
             conf["tests_with_patch"] = {"cmd": tcmd, "failing_on_unmodified_tree_too": len(base), "new_failures": new_fail,
                                         "tail": ot.strip().splitlines()[-1:], "wall_s": round(time.time() - t)}
